@@ -42,7 +42,8 @@ type poolSpec struct {
 	ExtBlockMs     uint64 `json:"ext_block_ms"`
 	FxBlockMs      uint64 `json:"fx_block_ms"`
 	ExtCalls       bool   `json:"ext_calls"`
-	Flood          bool   `json:"flood"` // start with more pooled transfers of one token than a batch takes
+	Flood          bool   `json:"flood"`     // start with more pooled transfers of one token than a batch takes
+	LongPark       bool   `json:"long_park"` // start with a deposit that is observed but executed only after more than a hundred later events
 }
 
 func poolCases(seed uint64, tier, prop string) []core.Case {
@@ -56,7 +57,7 @@ func poolCases(seed uint64, tier, prop string) []core.Case {
 	for i := 0; i < n; i++ {
 		s := poolSpec{Seed: rng.Uint64(), Chains: combos[i%len(combos)], Steps: 150 + rng.IntN(150), N: 3 + rng.IntN(3),
 			BatchTimeoutMs: uint64(60_000 + rng.IntN(600_000)), CallTimeoutMs: uint64(3_600_001 + rng.IntN(3_600_000)),
-			ExtBlockMs: uint64(1000 + rng.IntN(14000)), FxBlockMs: uint64(1000 + rng.IntN(8000)), ExtCalls: i%4 == 3, Flood: i%13 == 6}
+			ExtBlockMs: uint64(1000 + rng.IntN(14000)), FxBlockMs: uint64(1000 + rng.IntN(8000)), ExtCalls: i%4 == 3, Flood: i%13 == 6, LongPark: i%13 == 10}
 		if i%5 == 2 || i%5 == 4 {
 			// fxcore's clock runs far ahead of the external chain: the projected external height, and with it
 			// the timeouts of new batches and calls, overshoots between observations, so timeouts are not
@@ -102,13 +103,14 @@ type callRec struct {
 }
 
 type poolRun struct {
-	spec  poolSpec
-	rng   *rand.Rand
-	c     *chain.Chain
-	w     *fix.World
-	res   *core.CaseResult
-	verb  bool
-	users []chain.Key
+	settlesByRefund bool // the operation being measured removed a bridge call from the store by the timeout path
+	spec            poolSpec
+	rng             *rand.Rand
+	c               *chain.Chain
+	w               *fix.World
+	res             *core.CaseResult
+	verb            bool
+	users           []chain.Key
 	// per chain
 	model   map[string]map[uint64]*xfer
 	calls   map[string]map[uint64]*callRec
@@ -298,7 +300,7 @@ func (r *poolRun) expectDeltas(op string, before snap, want []delta) {
 		r.res.Count("native_supply_checks", 1)
 	}
 	// C05 speaks of who pays what when a transfer is queued, its fee raised, or it is cancelled
-	c05op := r.c05 && (kind == "increase-fee" || kind == "cancel" || kind == "send")
+	c05op := r.c05 && (kind == "increase-fee" || kind == "cancel" || kind == "send" || r.settlesByRefund)
 	if !r.c04 && !c05op {
 		return
 	}
@@ -324,7 +326,9 @@ func (r *poolRun) expectDeltas(op string, before snap, want []delta) {
 				if r.c04 {
 					r.res.Violate("C04/unexpected-balance-change/"+kind+"/"+string(r.group[base].Kind), "%s: holdings of %s in token group %s changed by %s, the operation moves %s", op, u, base, got, w)
 				}
-				if c05op {
+				if c05op && r.settlesByRefund {
+					r.res.Violate("C05/refund-mismatch/"+kind, "%s: a timed-out bridge call left the store; holdings of %s in token group %s changed by %s, the refund due is %s", op, u, base, got, w)
+				} else if c05op {
 					r.res.Violate("C05/payment-mismatch/"+kind, "%s: holdings of %s in token group %s changed by %s, the operation charges / refunds %s", op, u, base, got, w)
 				}
 			}
